@@ -25,6 +25,10 @@ class Enc:
         self.moved = {}      # pid -> rows consolidated by the collection in progress
 
     def J(self, name):
+        if name not in self.job:
+            # a name the real code produced that is no job of the scenario: a number no job has (the acceptor and the
+            # Python oracles judge it; the encoder must not be what fails)
+            self.job[name] = 900000 + len(self.job)
         return cN(self.job[name])
 
     def scenario(self):
@@ -329,6 +333,9 @@ def py_monitors(sc, trace, final=None):
                 probs.append(("C14", "sbatch-after-cancel", f"sbatch of batch {ev['index']} after the submission was canceled", i))
             if completes:
                 probs.append(("C05", "sbatch-after-complete", f"sbatch of batch {ev['index']} after completion", i))
+            if ev.get("commands", 1) != 1:
+                for p_ in ("C18", "C01"):
+                    probs.append((p_, "script-runs-several-commands", f"the submission script of batch {ev['index']} has {ev['commands']} command lines", i))
             if ev["index"] in indices:
                 probs.append(("C01", "batch-index-reused", f"batch index {ev['index']} used twice", i))
             indices[ev["index"]] = i
